@@ -216,3 +216,24 @@ def transform_matrix(draw, ncont, square=None):
     elif mode == 1 and rows > 1:  # rank deficient: repeat a row
         T[-1] = list(T[0])
     return T
+
+
+@st.composite
+def with_prefactor_distance(draw, shells, p=0.34):
+    """With probability p move shell 1 to a distance from shell 0 at which the Gaussian-product prefactor exp(-mu_min R^2) of their
+    most diffuse primitives takes a drawn value 10^-k, k uniform in 0..17: the band just inside / outside any screening or
+    underflow threshold is then populated by construction instead of by luck."""
+    if len(shells) < 2 or draw(st.floats(0, 1, allow_nan=False)) > p:
+        return shells
+    a, b = min(shells[0]["exps"]), min(shells[1]["exps"])
+    mu = a * b / (a + b)
+    k = draw(st.floats(0.0, 17.0, allow_nan=False))
+    r = math.sqrt(k * math.log(10.0) / mu)
+    u = [draw(st.floats(-1, 1, allow_nan=False)) for _ in range(3)]
+    un = math.sqrt(sum(t * t for t in u))
+    if un < 1e-2 or draw(st.integers(0, 3)) == 0:
+        u, un = [[1.0, 0.0, 0.0], [0.0, 1.0, 0.0], [0.0, 0.0, 1.0]][draw(st.integers(0, 2))], 1.0
+    out = [dict(x) for x in shells]
+    out[1]["coord"] = [c + r * t / un for c, t in zip(out[0]["coord"], u)]
+    out[1]["placed"] = "prefactor-1e-%d" % int(k)
+    return out
